@@ -98,7 +98,7 @@ func ZZ_C01_step() {
 	e := zzNewEnv(I)
 	m, _ := zzInvState(e, H)
 	m.config.Node.LazyMode = zzsym.Bool("lazy")
-	ans := zzSeqAny("a.", 2)
+	ans := zzSeqAny("a.", zzC01StepTxs)
 	e.seq.script = []zzSeqAnswer{ans}
 	e.exec.failExec = zzsym.Bool("execfails")
 	pre := zzSnap(e, m)
@@ -147,20 +147,31 @@ func ZZ_C01_recover() {
 	I, H := zzHeights()
 	e := zzNewEnv(I)
 	m, tip := zzInvState(e, H)
-	a1 := zzSeqAny("a1.", 1)
+	// zzC01FailSteps arbitrary (possibly failing) steps first
+	var script []zzSeqAnswer
+	stampedBefore := false
+	for i := 0; i < zzC01FailSteps; i++ {
+		a := zzSeqAny("a1.", 1)
+		script = append(script, a)
+		stampedBefore = stampedBefore || (!a.err && !a.nilResp && a.ts.Before(tip.header.Time()))
+	}
 	a2 := zzSeqAny("a2.", 1)
 	// well-formed: a batch is present (possibly empty) and not stamped before the tip
 	zzsym.Assume(!a2.err && !a2.nilResp && !a2.nilBatch)
 	zzsym.Assume(!a2.ts.Before(tip.header.Time()))
-	e.seq.script = []zzSeqAnswer{a1, a2}
-	e.exec.failExec = zzsym.Bool("execfails1")
+	e.seq.script = append(script, a2)
 	// known-finding regions (see known_findings.json)
-	zzsym.Region("first-answer-stamped-before-tip", !a1.err && !a1.nilResp && a1.ts.Before(tip.header.Time()))
-	_ = m.publishBlockInternal(context.Background())
-	if e.store.height != H {
-		return
+	zzsym.Region("first-answer-stamped-before-tip", stampedBefore)
+	for i := 0; i < zzC01FailSteps; i++ {
+		e.exec.failExec = zzsym.Bool("execfails1")
+		_ = m.publishBlockInternal(context.Background())
+		if e.store.height != H {
+			return
+		}
 	}
 	zzsym.Reach("first-step-did-not-commit")
+	// (a step that found a block saved early did not ask for a batch: the next answer is the well-formed one in any case)
+	e.seq.script = append(e.seq.script[:e.seq.calls:e.seq.calls], a2)
 	e.exec.failExec = false
 	err := m.publishBlockInternal(context.Background())
 	zzsym.Assert(err == nil, "well-formed-step-returns-nil")
